@@ -47,7 +47,7 @@ def gen_temporal(rng, n, tier):
             for c in coords:
                 c[i] = c[i - 1]
         form = rng.choice(['list', 'list', 'number', 'track'])
-        case = {'T': ts, 'ms': ms, 'X': coords[0], 'Y': coords[1], 'Z': coords[2], 'form': form}
+        case = {'T': ts, 'ms': ms, 'X': coords[0], 'Y': coords[1], 'Z': coords[2], 'form': form, 'zone': rng.choice([0, 0, 0, 2, -3]) if form == 'number' else 0}
         lo, hi = ts[0] - 5, ts[-1] + 6
         if form == 'number':
             dur = ts[-1] - ts[0]
@@ -84,6 +84,8 @@ def run_temporal(case):
     from tracklib.core import ObsTime
     tr = mktrack(case['T'], case['ms'], case['X'], case['Y'], case['Z'])
     tr.createAnalyticalFeature('a', 1.0)
+    if case.get('zone'):
+        tr.setTimeZone(case['zone'])
     if case['form'] == 'number':
         arg = case['delta']
     else:
@@ -189,7 +191,7 @@ def gen_spatial(rng, n, tier):
             X[-1] += 3; Y[-1] += 4
         Z = [float(rng.choice([0, 1, 2, 10, 0.5])) for _ in range(k)]
         T = sorted(rng.sample(range(100, 100 + 3 * k + 5), k))
-        out.append({'X': X, 'Y': Y, 'Z': Z, 'T': T, 'ms': [0] * k, 'ds': rng.choice([0.25, 0.5, 1, 2, 4, 5, 2.5, 10, 13])})
+        out.append({'X': X, 'Y': Y, 'Z': Z, 'T': T, 'ms': [0] * k, 'ds': rng.choice([0.25, 0.5, 1, 2, 4, 5, 2.5, 10, 13]), 'zone': rng.choice([0, 0, 0, 2, -3])})
     return out
 
 
@@ -204,6 +206,8 @@ def abscissas(case):
 def run_spatial(case):
     tr = mktrack(case['T'], case['ms'], case['X'], case['Y'], case['Z'])
     tr.createAnalyticalFeature('a', 1.0)
+    if case.get('zone'):
+        tr.setTimeZone(case['zone'])              # a label on the timestamps: the instants, hence the interpolated ones, are the same wall-clock fields
     tr.resample(delta=case['ds'], mode=1)
     o = observe(tr)
     o['S'] = abscissas(case)
